@@ -177,6 +177,17 @@ inductive Cell where
 
 def int64 (i : Int) : Bool := decide (-9223372036854775808 ≤ i) && decide (i ≤ 9223372036854775807)
 
+/-- `SqlTextOutputStream` renders its rows with `sqlite3.Connection.iterdump()`, i.e. with sqlite's
+    `quote()`, which stops at the first NUL character of a text value (observed: `"a\0b"` is dumped
+    as `'a'` — defect D56; the database behind a dburl keeps the full value). -/
+def truncNul (s : String) : String := String.ofList (s.toList.takeWhile (fun c => c != Char.ofNat 0))
+
+/-- text of a string value as it reaches the artefact of a sqlite-backed class -/
+def sqlText (c : Cls) (s : String) : String :=
+  match c with
+  | .sqlText => truncNul s
+  | _ => s
+
 /-- The sink of a class applied to an *encoded* value.  `isId`: the cell is the `id` column
     (INTEGER PRIMARY KEY in the database; elsewhere like any other field).  -/
 def sink (c : Cls) (isId : Bool) (v : Val) : Except EncErr Cell :=
@@ -199,7 +210,7 @@ def sink (c : Cls) (isId : Bool) (v : Val) : Except EncErr Cell :=
     match v with
     | .none => .ok .null
     | .int i => if int64 i then .ok (if isId then .int i else .text (toString i)) else .error .overflow
-    | .str s => .ok (.text s)
+    | .str s => .ok (.text (sqlText c s))
     | .float r => .ok (.text r)
     | .date iso => .ok (.text iso)          -- sqlite3 default adapter
     | .datetime _ sp => .ok (.text sp)      -- sqlite3 default adapter: isoformat(" ")
